@@ -2,7 +2,7 @@
   Implementation model of the 6502 encoder `parse_instruction_6502` (asm/6502.cpp, with `get_num` and
   `get_address`) for statements that carry at most ONE operand of the syntactic shapes listed in `Operand`.
 
-  A statement is what the token loop sees: the lower-cased mnemonic, the dot suffix (0 = none, 8 = `.b`, 16 = `.w`)
+  A statement is what the token loop sees: the lower-cased mnemonic, the dot suffix (none, `.b`, `.w`)
   and the operand: which brackets / index letter / modifier (`<`, `>`, `!`) were written and the C `int` that
   `eval_expression(asm_context, &num)` delivered for each number (the 64-bit expression value, rejected unless it
   lies in -2^31 .. 2^32-1, then its low 32 bits), so every range check below is the C comparison on `int`.
@@ -41,9 +41,13 @@ inductive Operand where
   | indY (m : Mod) (v : BitVec 32)                -- ( v ) , y
   deriving DecidableEq, Repr, Inhabited
 
+/-- the dot suffix: none (`size = 0`), `.b` (8), `.w` (16) -/
+inductive Size | s0 | s8 | s16
+  deriving DecidableEq, Repr, Inhabited
+
 structure Stmt where
   mnemonic : String            -- instr_case
-  size : Nat := 0              -- 0, 8 (.b), 16 (.w)
+  size : Size := .s0
   op : Operand
   deriving DecidableEq, Repr, Inhabited
 
@@ -71,13 +75,17 @@ def getNum (m : Mod) (v : BitVec 32) : Option (BitVec 32) :=
   | .bang => none
 
 /-- `get_address`: the number after an optional `<` (force zero page) or `!` (force absolute) and the operand size
-    (8 / 16) it settles on when the suffix left it open -/
-def getAddress (ctx : Ctx) (m : Mod) (v : BitVec 32) (size : Nat) : Option (BitVec 32 × Nat) :=
-  let size1 := if size = 0 then (if (0xff : BitVec 32).slt v then 16 else if ctx.flag = 1 then 16 else 8) else size
+    it settles on (`true` = 16, `false` = 8) when the suffix left it open -/
+def getAddress (ctx : Ctx) (m : Mod) (v : BitVec 32) (size : Size) : Option (BitVec 32 × Bool) :=
+  let wide : Bool :=
+    match size with
+    | .s0 => (0xff : BitVec 32).slt v || ctx.flag = 1
+    | .s8 => false
+    | .s16 => true
   match m with
-  | .none => some (v, size1)
-  | .lt => some (v &&& 0xff, 8)
-  | .bang => some (v &&& 0xffff, 16)
+  | .none => some (v, wide)
+  | .lt => some (v &&& 0xff, false)
+  | .bang => some (v &&& 0xffff, true)
   | .gt => none
 
 /-- what the token loop leaves: addressing mode, `num`, `offset`, and whether `num` was set at all (`seen`) -/
@@ -114,15 +122,15 @@ def parseRel (ctx : Ctx) (o : Operand) : PResult :=
   | .ind _ _ | .indX _ _ | .indY _ _ => .unmodelled
 
 /-- the operand of every other mnemonic; `op0` is the default mode of its `table_6502[]` row -/
-def parseGen (ctx : Ctx) (op0 : Nat) (size : Nat) (o : Operand) : PResult :=
-  let address (m : Mod) (v : BitVec 32) (k : BitVec 32 → Nat → PResult) : PResult :=
+def parseGen (ctx : Ctx) (op0 : Nat) (size : Size) (o : Operand) : PResult :=
+  let address (m : Mod) (v : BitVec 32) (k : BitVec 32 → Bool → PResult) : PResult :=
     match getAddress ctx m v size with
     | none => .unmodelled
-    | some (n, sz) =>
+    | some (n, wide) =>
       if outside 0 0xffff n then .err
       else
-        let sz := if n = 0 ∧ ctx.flag = 1 then 16 else sz
-        if sz = 8 ∧ (0xff : BitVec 32).slt n then .err else k n sz
+        let wide := wide || (n = 0 && ctx.flag = 1)
+        if !wide && (0xff : BitVec 32).slt n then .err else k n wide
   match o with
   | .none => .ok { op := op0, num := 0, seen := false }
   | .imm m v =>
@@ -140,16 +148,15 @@ def parseGen (ctx : Ctx) (op0 : Nat) (size : Nat) (o : Operand) : PResult :=
   | .indY m v =>
     (match getAddress ctx m v size with
      | none => .unmodelled
-     | some (n, sz) => if outside 0 0xff n || sz = 16 then .err else .ok { op := M6502_OP_INDIRECT8_Y, num := n })
+     | some (n, wide) => if outside 0 0xff n || wide then .err else .ok { op := M6502_OP_INDIRECT8_Y, num := n })
   | .addr m v =>
-    address m v (fun n sz =>
-      .ok { op := if sz = 8 then M6502_OP_ADDRESS8 else if sz = 16 then M6502_OP_ADDRESS16 else op0, num := n })
+    address m v (fun n wide => .ok { op := if wide then M6502_OP_ADDRESS16 else M6502_OP_ADDRESS8, num := n })
   | .addrX m v =>
-    address m v (fun n sz =>
-      .ok { op := if (0xff : BitVec 32).slt n || sz = 16 then M6502_OP_INDEXED16_X else M6502_OP_INDEXED8_X, num := n })
+    address m v (fun n wide =>
+      .ok { op := if (0xff : BitVec 32).slt n || wide then M6502_OP_INDEXED16_X else M6502_OP_INDEXED8_X, num := n })
   | .addrY m v =>
-    address m v (fun n sz =>
-      .ok { op := if (0xff : BitVec 32).slt n || sz = 16 then M6502_OP_INDEXED16_Y else M6502_OP_INDEXED8_Y, num := n })
+    address m v (fun n wide =>
+      .ok { op := if (0xff : BitVec 32).slt n || wide then M6502_OP_INDEXED16_Y else M6502_OP_INDEXED8_Y, num := n })
   | .addrRel m v t =>
     address m v (fun n _ =>
       .ok { op := M6502_OP_ADDRESS8_RELATIVE, num := n, offset := if ctx.pass1 then 0 else t - (ctx.address + 3) })
@@ -187,26 +194,27 @@ def is16 (op : Nat) : Bool :=
 def lo8 (v : BitVec 32) : BitVec 8 := v.truncate 8
 def hi8 (v : BitVec 32) : BitVec 8 := (v >>> 8).truncate 8
 
+/-- the final range `switch` and the bytes given to `add_bin8`, for the mode `op` the search settled on -/
+def emit (op : Nat) (opcode : BitVec 8) (p : Parsed) : Result :=
+  if is8 op then
+    if outside 0 0xff p.num then .err else .ok [opcode, lo8 p.num]
+  else if is16 op then
+    if outside 0 0xffff p.num then .err else .ok [opcode, lo8 p.num, hi8 p.num]
+  else if op = M6502_OP_ADDRESS8_RELATIVE then
+    if outside 0 0xff p.num then .err
+    else if outside (-128) 127 p.offset then .err
+    else .ok [opcode, lo8 p.num, lo8 p.offset]
+  else
+    let bytes := opBytes.getD op 0
+    .ok (opcode :: ((if 1 < bytes then [lo8 p.num] else []) ++ (if 2 < bytes then [hi8 p.num] else [])))
+
 /-- from "find opcode in table" to the end of the function; `instr` is the row index in `table_6502[]` -/
 def finish (ctx : Ctx) (instr : Nat) (p : Parsed) : Result :=
   if 1 < opBytes.getD p.op 0 ∧ p.seen = false then .err          -- "Wrong number of operands"
   else
-    let found := search instr p.op
-    if ctx.pass1 = false ∧ found = none then .err                 -- "No instruction found for addressing mode"
-    else
-      let opcode : BitVec 8 := match found with | some (c, _) => BitVec.ofNat 8 c | none => 0xff
-      let op : Nat := match found with | some (_, o) => o | none => p.op
-      if is8 op then
-        if outside 0 0xff p.num then .err else .ok [opcode, lo8 p.num]
-      else if is16 op then
-        if outside 0 0xffff p.num then .err else .ok [opcode, lo8 p.num, hi8 p.num]
-      else if op = M6502_OP_ADDRESS8_RELATIVE then
-        if outside 0 0xff p.num then .err
-        else if outside (-128) 127 p.offset then .err
-        else .ok [opcode, lo8 p.num, lo8 p.offset]
-      else
-        let bytes := opBytes.getD op 0
-        .ok (opcode :: ((if 1 < bytes then [lo8 p.num] else []) ++ (if 2 < bytes then [hi8 p.num] else [])))
+    match search instr p.op with
+    | none => if ctx.pass1 then emit p.op 0xff p else .err        -- pass 2: "No instruction found for addressing mode"
+    | some (c, op) => emit op (BitVec.ofNat 8 c) p
 
 /-- the row of `table_6502[]` the name loop stops at, with its index -/
 def findName (m : String) : Option (Nat × Name) :=
@@ -229,16 +237,16 @@ def assemble (addr : BitVec 32) (s : Stmt) : Result :=
   | .ok _ => encode { address := addr, flag := 0, pass1 := false } s
   | r => r
 
-example : encode { address := 0x1000 } ⟨"lda", 0, .imm .none 5⟩ = .ok [0xa9, 0x05] := by decide +kernel
-example : encode { address := 0x1000 } ⟨"lda", 0, .addr .none 0xff⟩ = .ok [0xa5, 0xff] := by decide +kernel
-example : encode { address := 0x1000 } ⟨"lda", 0, .addr .none 0x100⟩ = .ok [0xad, 0x00, 0x01] := by decide +kernel
-example : encode { address := 0x1000, flag := 1 } ⟨"lda", 0, .addr .none 5⟩ = .ok [0xad, 0x05, 0x00] := by decide +kernel
-example : encode { address := 0x1000 } ⟨"lda", 0, .addrY .none 5⟩ = .ok [0xb9, 0x05, 0x00] := by decide +kernel
-example : encode { address := 0x1000 } ⟨"lda", 0, .addr .none 0x10000⟩ = .err := by decide +kernel
-example : encode { address := 0x1000 } ⟨"bne", 0, .addr .none 0x1081⟩ = .ok [0xd0, 0x7f] := by decide +kernel
-example : encode { address := 0x1000 } ⟨"bne", 0, .addr .none 0x1082⟩ = .err := by decide +kernel
-example : encode { address := 0x1000 } ⟨"bbr0", 0, .addrRel .none 5 0x1000⟩ = .ok [0x0f, 0x05, 0xfd] := by decide +kernel
-example : encode { address := 0x1000 } ⟨"jmp", 0, .ind .none 0x1234⟩ = .ok [0x6c, 0x34, 0x12] := by decide +kernel
-example : encode { address := 0x1000 } ⟨"lda", 0, .ind .none 0x12⟩ = .ok [0xb2, 0x12] := by decide +kernel
+example : encode { address := 0x1000 } ⟨"lda", .s0, .imm .none 5⟩ = .ok [0xa9, 0x05] := by decide +kernel
+example : encode { address := 0x1000 } ⟨"lda", .s0, .addr .none 0xff⟩ = .ok [0xa5, 0xff] := by decide +kernel
+example : encode { address := 0x1000 } ⟨"lda", .s0, .addr .none 0x100⟩ = .ok [0xad, 0x00, 0x01] := by decide +kernel
+example : encode { address := 0x1000, flag := 1 } ⟨"lda", .s0, .addr .none 5⟩ = .ok [0xad, 0x05, 0x00] := by decide +kernel
+example : encode { address := 0x1000 } ⟨"lda", .s0, .addrY .none 5⟩ = .ok [0xb9, 0x05, 0x00] := by decide +kernel
+example : encode { address := 0x1000 } ⟨"lda", .s0, .addr .none 0x10000⟩ = .err := by decide +kernel
+example : encode { address := 0x1000 } ⟨"bne", .s0, .addr .none 0x1081⟩ = .ok [0xd0, 0x7f] := by decide +kernel
+example : encode { address := 0x1000 } ⟨"bne", .s0, .addr .none 0x1082⟩ = .err := by decide +kernel
+example : encode { address := 0x1000 } ⟨"bbr0", .s0, .addrRel .none 5 0x1000⟩ = .ok [0x0f, 0x05, 0xfd] := by decide +kernel
+example : encode { address := 0x1000 } ⟨"jmp", .s0, .ind .none 0x1234⟩ = .ok [0x6c, 0x34, 0x12] := by decide +kernel
+example : encode { address := 0x1000 } ⟨"lda", .s0, .ind .none 0x12⟩ = .ok [0xb2, 0x12] := by decide +kernel
 
 end NakenVerif.M6502.Asm
